@@ -31,6 +31,9 @@ enum AView {
     /// `(resv G (views))`: a Resource created at the top of the render (outside every boundary) whose fetch completes when gate G
     /// opens, READ here by a dynamic view that shows nothing while it is loading and the views once it has a value
     ResView(u32, Vec<AView>),
+    /// `(cresv (views))`: like `resv`, but a CLIENT resource (create_client_resource): on the server it is never fetched, the reader
+    /// shows nothing, and no task is registered with the boundary
+    ClientResView(Vec<AView>),
     /// `(live)`: a dynamic text showing a signal ("alive") that a cleanup callback of the surrounding scope sets to "gone": what is
     /// rendered must be the state the render reached, not the state after its scopes were disposed
     Live,
@@ -44,7 +47,7 @@ thread_local! {
 fn prepare_resources(v: &AView, gates: &Gates) {
     match v {
         AView::Text(_) | AView::Live => {}
-        AView::El(_, ch) | AView::Dyn(ch) => ch.iter().for_each(|c| prepare_resources(c, gates)),
+        AView::El(_, ch) | AView::Dyn(ch) | AView::ClientResView(ch) => ch.iter().for_each(|c| prepare_resources(c, gates)),
         AView::Sus(fb, ch) | AView::Trans(fb, ch) => {
             fb.iter().for_each(|c| prepare_resources(c, gates));
             ch.iter().for_each(|c| prepare_resources(c, gates));
@@ -80,6 +83,7 @@ fn parse(s: &Sx) -> AView {
         "dyn" => AView::Dyn(l[1].list().iter().map(parse).collect()),
         "resv" => AView::ResView(l[1].num(), l[2].list().iter().map(parse).collect()),
         "live" => AView::Live,
+        "cresv" => AView::ClientResView(l[1].list().iter().map(parse).collect()),
         x => panic!("bad async view {x}"),
     }
 }
@@ -130,6 +134,14 @@ fn build(v: &AView, gates: &Gates) -> View {
             let (ch, gates) = (ch.clone(), gates.clone());
             View::from_dynamic(move || build_all(&ch, &gates))
         }
+        AView::ClientResView(vs) => {
+            let r = create_client_resource(|| async { 1u32 });
+            let (vs, gates) = (vs.clone(), gates.clone());
+            View::from_dynamic(move || match r.get_clone() {
+                None => View::default(),
+                Some(_) => build_all(&vs, &gates),
+            })
+        }
         AView::Live => {
             let s = sycamore_reactive::create_signal("alive".to_string());
             sycamore_reactive::on_cleanup(move || s.set("gone".to_string()));
@@ -165,6 +177,7 @@ fn gates_of(v: &AView, out: &mut Vec<u32>) {
             ch.iter().for_each(|c| gates_of(c, out));
         }
         AView::Dyn(ch) => ch.iter().for_each(|c| gates_of(c, out)),
+        AView::ClientResView(_) => {}
         AView::Async(g, res) | AView::ResView(g, res) => {
             out.push(*g);
             res.iter().for_each(|c| gates_of(c, out));
